@@ -20,7 +20,7 @@ Proof.
   intros Hc. pose proof (commit_at_pos h Hwf hi lo ltac:(destruct Hc as (? & _); assumption)) as Hp.
   destruct Hc as (_ & _ & _ & Hc & _). rewrite <- Hc in Hp. apply N.ltb_lt in Hp.
   unfold apply_ltx_file. rewrite Hp.
-  destruct (f_bad f =? 1); [intros H; discriminate|].
+  destruct ((f_bad f =? 1) || (f_bad f =? 3)); [intros H; discriminate|].
   destruct (f_bad f =? 2); intros H; [discriminate|]. now injection H as <-.
 Qed.
 
@@ -31,7 +31,7 @@ Proof.
   intros Hc. pose proof (commit_at_pos h Hwf hi lo ltac:(destruct Hc as (? & _); assumption)) as Hp.
   destruct Hc as (_ & _ & _ & Hc & _). rewrite <- Hc in Hp. apply N.ltb_lt in Hp.
   unfold apply_ltx_file. rewrite Hp.
-  destruct (f_bad f =? 1); [intros H; injection H as <-; now left|].
+  destruct ((f_bad f =? 1) || (f_bad f =? 3)); [intros H; injection H as <-; now left|].
   destruct (f_bad f =? 2); intros H; [|discriminate]. injection H as <-. now right.
 Qed.
 
@@ -178,3 +178,48 @@ Proof.
 Qed.
 
 End Step.
+
+(** ** fallible open / close: any non-ok outcome (open error, file vanished
+    between listing and open, close error) stops the poll at that file and
+    leaves lastTXID and the sidecar where they were; a poll that returns without
+    error advanced only over files that were really applied.  No hypothesis on
+    the replica. *)
+Theorem failed_apply_stops_poll (rep : replica) (fo : follower) :
+  let r := follow_tick rep fo in
+  existsb fails (snd r) = true ->
+  fo_last (fst r) = fo_last fo /\ fo_sidecar (fst r) = fo_sidecar fo /\
+  exists pre f, snd r = pre ++ [f] /\ fails f = true /\
+                forallb (fun g => negb (fails g)) pre = true.
+Proof.
+  cbv zeta. unfold follow_tick.
+  assert (Hg : good rep (fo_img fo) (fo_last fo) [] (mkSt (fo_img fo) []) (fo_last fo)).
+  { exists []. split; [reflexivity|constructor]. }
+  pose proof (apply_new_spec rep _ (fo_last fo) [] _ (fo_last fo) Hg) as S.
+  destruct (apply_new_ltx_files rep (mkSt (fo_img fo) []) (fo_last fo)) as [[st' new] err].
+  destruct err.
+  - cbn [fst snd]. intros _. split; [reflexivity|]. split; [reflexivity|].
+    destruct S as (fs & Ha & Hr). cbn in Ha. rewrite Ha. eapply run_err_last; eauto.
+  - destruct S as [(fs & Ha & Hr) _]. cbn in Ha.
+    pose proof (run_ok_all_ok _ _ _ _ _ _ Hr) as Hall.
+    assert (E : existsb fails (s_applied st') = false).
+    { rewrite Ha. clear -Hall. induction fs as [|g tl IH]; [reflexivity|]. cbn in *.
+      apply andb_prop in Hall as [H1 H2]. rewrite (IH H2). now destruct (fails g). }
+    destruct (fo_last fo <? new); cbn [fst snd]; rewrite E; discriminate.
+Qed.
+
+Theorem poll_advances_only_over_applied (rep : replica) (s : image) (after : N) :
+  let r := apply_new_ltx_files rep (mkSt s []) after in
+  snd r = false ->
+  forallb (fun g => negb (fails g)) (s_applied (fst (fst r))) = true /\
+  chain_ok after (s_applied (fst (fst r))) = true /\
+  snd (fst r) = chain_end after (s_applied (fst (fst r))).
+Proof.
+  cbv zeta.
+  assert (Hg : good rep s after [] (mkSt s []) after).
+  { exists []. split; [reflexivity|constructor]. }
+  pose proof (apply_new_spec rep s after [] (mkSt s []) after Hg) as S.
+  destruct (apply_new_ltx_files rep (mkSt s []) after) as [[st' new] err]. cbn [fst snd].
+  intros ->. destruct S as [(fs & Ha & Hr) _]. cbn in Ha. rewrite Ha.
+  destruct (run_ok_chain _ _ _ _ _ _ Hr) as (C1 & C2 & _).
+  split; [eapply run_ok_all_ok; eauto|]. split; [exact C1|now symmetry].
+Qed.
